@@ -11,6 +11,7 @@ import (
 	"math/rand"
 	"os"
 	"path/filepath"
+	"runtime"
 	"sync"
 	"sync/atomic"
 
@@ -163,6 +164,9 @@ type Call struct {
 	Result string // ok, missing, invalid, error, true, false
 	N      int64 // ordinal of this op kind on this store (1-based)
 	Tok    int64 // unique token of the returned object (get)
+	G      int64 // goroutine that made the call
+	Err    error // error returned (if any)
+	Chunk  *desync.Chunk
 }
 
 // MemStore is an in-memory WriteStore with per-ID states, a fault plan and a call log.
@@ -266,10 +270,15 @@ func (m *MemStore) begin(op string, id desync.ChunkID) (n int64, t0 int64, close
 }
 
 func (m *MemStore) end(op string, id desync.ChunkID, n, t0 int64, res string, tok int64) {
+	m.end2(op, id, n, t0, res, tok, nil, nil)
+}
+
+func (m *MemStore) end2(op string, id desync.ChunkID, n, t0 int64, res string, tok int64, err error, ch *desync.Chunk) {
+	g := Goid()
 	t1 := Tick()
 	m.mu.Lock()
 	m.inFl[op+":"+id.String()]--
-	m.calls = append(m.calls, Call{Op: op, ID: id, T0: t0, T1: t1, Result: res, N: n, Tok: tok})
+	m.calls = append(m.calls, Call{Op: op, ID: id, T0: t0, T1: t1, Result: res, N: n, Tok: tok, G: g, Err: err, Chunk: ch})
 	m.mu.Unlock()
 }
 
@@ -282,7 +291,7 @@ func (m *MemStore) GetChunk(id desync.ChunkID) (*desync.Chunk, error) {
 	n, t0, _ := m.begin("get", id)
 	if m.Fault != nil {
 		if err := m.Fault("get", n, id); err != nil {
-			m.end("get", id, n, t0, "error", 0)
+			m.end2("get", id, n, t0, "error", 0, err, nil)
 			return nil, err
 		}
 	}
@@ -292,22 +301,24 @@ func (m *MemStore) GetChunk(id desync.ChunkID) (*desync.Chunk, error) {
 	m.mu.Unlock()
 	switch {
 	case !ok:
-		m.end("get", id, n, t0, "missing", 0)
-		return nil, desync.ChunkMissing{ID: id}
+		e := desync.ChunkMissing{ID: id}
+		m.end2("get", id, n, t0, "missing", 0, e, nil)
+		return nil, e
 	case inv:
 		m.end("get", id, n, t0, "invalid", 0)
 		return nil, desync.ChunkInvalid{ID: id, Sum: Sum(b)}
 	}
 	tok := atomic.AddInt64(&tokCounter, 1)
-	m.end("get", id, n, t0, "ok", tok)
-	return desync.NewChunk(b), nil
+	ch := desync.NewChunk(b)
+	m.end2("get", id, n, t0, "ok", tok, nil, ch)
+	return ch, nil
 }
 
 func (m *MemStore) HasChunk(id desync.ChunkID) (bool, error) {
 	n, t0, _ := m.begin("has", id)
 	if m.Fault != nil {
 		if err := m.Fault("has", n, id); err != nil {
-			m.end("has", id, n, t0, "error", 0)
+			m.end2("has", id, n, t0, "error", 0, err, nil)
 			return false, err
 		}
 	}
@@ -323,7 +334,7 @@ func (m *MemStore) StoreChunk(c *desync.Chunk) error {
 	n, t0, _ := m.begin("store", id)
 	if m.Fault != nil {
 		if err := m.Fault("store", n, id); err != nil {
-			m.end("store", id, n, t0, "error", 0)
+			m.end2("store", id, n, t0, "error", 0, err, c)
 			return err
 		}
 	}
@@ -336,7 +347,7 @@ func (m *MemStore) StoreChunk(c *desync.Chunk) error {
 	m.data[id] = append([]byte(nil), b...)
 	delete(m.invalid, id)
 	m.mu.Unlock()
-	m.end("store", id, n, t0, "ok", 0)
+	m.end2("store", id, n, t0, "ok", 0, nil, c)
 	return nil
 }
 
@@ -472,3 +483,20 @@ func (p *CountPB) Get() (sum int64, calls int64) {
 	defer p.mu.Unlock()
 	return p.Sum, p.Calls
 }
+
+// Goid returns the id of the calling goroutine.
+func Goid() int64 {
+	var buf [40]byte
+	n := runtime.Stack(buf[:], false)
+	// "goroutine 123 ["
+	var id int64
+	for i := 10; i < n; i++ {
+		c := buf[i]
+		if c < '0' || c > '9' {
+			break
+		}
+		id = id*10 + int64(c-'0')
+	}
+	return id
+}
+
